@@ -140,6 +140,7 @@ def run(check, an: Analysis):
                        'the failure list starts empty and is never replaced')
     check.floor('X', 3)
     _scope.check_failure_is_kept_as_raised(check, an, 'X')
+    _scope.check_scope_told_before_done(check, an, 'X')
     exc_prop = an.method(_scope.TASK, '__exception__')
     returned = {rules.value_text(p, len(p.events) - 1, p.outcome[1])
                 for p in an.paths(Callee(exc_prop, _scope.TASK))
